@@ -183,7 +183,7 @@ fn extracted_fun_src(
 ) -> String {
     let return_signature = match return_ty {
         Some(Type::Any) | None => "".to_owned(),
-        Some(ty) if mentions_generic_fun(ty) => "".to_owned(),
+        Some(ty) if !is_hintable(ty) => "".to_owned(),
         Some(Type::Error { inferred_type, .. }) => match inferred_type {
             Some(ty) => format!(": {ty}"),
             None => "".to_owned(),
@@ -194,7 +194,7 @@ fn extracted_fun_src(
     let params_signature = params
         .iter()
         .map(|(param, ty)| match ty {
-            Some(ty) if !mentions_generic_fun(ty) => format!("{}: {}", param.text, ty),
+            Some(ty) if is_hintable(ty) => format!("{}: {}", param.text, ty),
             _ => param.text.to_owned(),
         })
         .collect::<Vec<_>>()
@@ -205,13 +205,13 @@ fn extracted_fun_src(
     let mut type_param_names: Vec<String> = vec![];
     for (_, ty) in params {
         if let Some(ty) = ty {
-            if !mentions_generic_fun(ty) {
+            if is_hintable(ty) {
                 collect_type_params(ty, &mut type_param_names);
             }
         }
     }
     match return_ty {
-        Some(ty) if mentions_generic_fun(ty) => {}
+        Some(ty) if !is_hintable(ty) => {}
         Some(Type::Error { inferred_type, .. }) => {
             if let Some(ty) = inferred_type {
                 collect_type_params(ty, &mut type_param_names);
@@ -234,6 +234,36 @@ fn extracted_fun_src(
         return_signature,
         &src[body_start..body_end]
     )
+}
+
+/// Can `ty` be written as a type hint that accepts the values it was
+/// inferred for?
+fn is_hintable(ty: &Type) -> bool {
+    !mentions_generic_fun(ty) && !has_no_value_inside(ty, true)
+}
+
+/// Does `ty` have `NoValue` as a component, e.g. `List<NoValue>` for
+/// `[]` or for a call whose element type wasn't solved? A hint with
+/// it would reject every non-empty value.
+fn has_no_value_inside(ty: &Type, is_outermost: bool) -> bool {
+    match ty {
+        Type::UserDefined { args, .. } => {
+            (!is_outermost && ty.is_no_value())
+                || args.iter().any(|arg| has_no_value_inside(arg, false))
+        }
+        Type::Tuple(items) => items.iter().any(|item| has_no_value_inside(item, false)),
+        Type::Fun {
+            params, return_, ..
+        } => {
+            params.iter().any(|param| has_no_value_inside(param, false))
+                || has_no_value_inside(return_, false)
+        }
+        Type::Error { inferred_type, .. } => match inferred_type {
+            Some(inferred_type) => has_no_value_inside(inferred_type, is_outermost),
+            None => false,
+        },
+        Type::Any | Type::TypeParameter(_) => false,
+    }
 }
 
 /// Does `ty` contain the type of a generic function, e.g.
